@@ -81,11 +81,11 @@ CHECKS["C01"] = {
 }
 CHECKS["C02"] = {
     "families": ["brd", "win"],
-    "trusted_base": ["libbrotlidec (cgo, in-tree internal/cgo/brotli) is the reference; there is NO Lean model of the Brotli format: the format-level clause is decided by the differential sweep only", "Window/Prefix/BitIO models as in C01/C20"],
-    "assumptions": ["Brotli format logic (block switching, context maps, static dictionary transforms) is not modelled"],
-    "level_text": "partial: proved only for the components brotli.Reader shares with the modelled code - its LZ77 window (C02_window: dictDecoder with lazy growth = append-only LZ77 output, incl. the ring wrap-around), its bit reader over every source shape and its prefix-table decoder (C20). The format itself (RFC 7932) has no Lean model; agreement with libbrotlidec - verdict, output, bytes before an error - is a differential sweep over every <=1-byte string, a stride of the 2-byte strings, libbrotlienc output at qualities 0-11 (random, low-entropy, dictionary-heavy text, testdata) and their mutations.",
-    "level_note": "Trusted: libbrotlidec; Lean kernel for the component theorems. This is the weakest claim in the manifest: a change confined to Brotli format logic is caught only if the sweep hits it.",
-    "explanation": "component theorems + libbrotlidec differential",
+    "trusted_base": ["libbrotlidec (cgo, in-tree internal/cgo/brotli) is the reference of the property itself", "Brotli.Spec is my reading of RFC 7932 (static dictionary taken from /repo on every run), validated on every run against libbrotlidec and brotli.Reader on every input of family brd", "there is no Go-shaped model of brotli.Reader's control flow: 'brotli.Reader = specification' is a correspondence, not a refinement theorem", "Window/Prefix/BitIO models as in C01/C20"],
+    "assumptions": ["reject classes on invalid (not merely truncated) streams are not compared: RFC 7932 does not fix which check fires first"],
+    "level_text": "partial: a Lean specification of RFC 7932 exists and is compared on every run with brotli.Reader and libbrotlidec (verdict, output length and hash on ~30k inputs per quick run: every <=1-byte string, a stride of the 2-byte strings, libbrotlienc output at qualities 0-11, streams from an independent synthesiser - all WBITS/NPOSTFIX/NDIRECT, one-symbol codes, arbitrary ring-buffer distance codes, several meta-blocks, uncompressed and metadata meta-blocks -, one-command streams for every transform x word length, mutations; reject class on cuts of valid streams; the 121 transforms against Go's transformWord on sampled words of every length). Proved: the components brotli.Reader shares with modelled code - its LZ77 window (C02_window), bit reader over every source shape (C02_bitreader), prefix-table decoder (C02_prefix_decoder) - and sanity theorems pinning the specification (tables, smallest streams, kernel-evaluated examples). NOT proved: that a Go-shaped model of brotli.Reader refines the specification (no such model).",
+    "level_note": "Trusted: libbrotlidec; Lean kernel for the component and sanity theorems. This is the weakest claim in the manifest: a change confined to Brotli format logic is caught by the three-way differential, not by a theorem.",
+    "explanation": "Lean RFC 7932 specification + component theorems + 3-way differential (dsnet, specification, libbrotlidec)",
 }
 CHECKS["C03"] = {
     "families": ["bz", "bzst", "bzw"],
